@@ -1,5 +1,6 @@
 import SarpyModel.Drivers.Util
 import SarpyModel.Spec.XsdFmt
+import SarpyModel.Spec.XsdVersion
 /-
   Line protocol for the C06 model (no spaces inside a token):
 
@@ -7,6 +8,7 @@ import SarpyModel.Spec.XsdFmt
     xsd valid <schema> <type id> <tree>    -> 1 | 0         validB
     xsd conf  <rows> <model>               -> <strict><weak>  e.g. 11, 01, 00
     xsd confg <rows> <model> <dIf> <dUnless> -> <strict><weak><guards>   (tag lists joined by ',', '-' = empty)
+    xsd vreq  <base> <since,since,...>      -> version index       Spec.XsdVersion.requiredList ('-' = no present feature)
 
   <tree>   nodes in preorder joined by ';', a node is  tag,nkids,text,attr=val,attr=val...   (text / val xsdHex encoded, '-' = empty)
   <tabs>   classes joined by ';', a class is  id/rows/children[/dIf/dUnless/derive]
@@ -207,6 +209,10 @@ def xsdStep (toks : List String) : Option String :=
       let m ← parseModelParts attrs groups
       pure (xsdB01 (conformsB rs m) ++ xsdB01 (conformsWeakB rs m))
     | _ => none
+  | ["vreq", base, sinces] => do
+    let b ← base.toNat?
+    let vs ← xsdParseNats (if sinces == "-" then "" else sinces)
+    pure (toString (Sarpy.Spec.XsdVersion.requiredList b vs))
   | ["confg", rows, model, dif, dun] => do
     let rs ← (xsdSplit rows ",").mapM xsdParseRow
     match model.splitOn "/" with
